@@ -19,16 +19,24 @@ pub open spec fn local_of(m: Option<(MemtableArc, u64)>) -> Option<u64> { match 
 pub open spec fn point_read(o: RWorld, n: RWorld, ks: u64, instant: u64) -> bool {
     n.reads == o.reads.push(ReadEv { ks, instant, scan: false, local: false })
 }
+/// what the tree of keyspace `ks` answers for `key` at `instant` (lsm-tree's MVCC contract: assumed, uninterpreted);
+/// contains_key and size_of are the same answer seen as presence / length
+pub uninterp spec fn snap_get(ks: u64, key: Seq<u8>, instant: u64) -> Option<Seq<u8>>;
+/// the bytes a generic key argument stands for
+pub uninterp spec fn key_bytes<K>(k: K) -> Seq<u8>;
+pub broadcast axiom fn key_bytes_of_slice(k: &[u8]) ensures #[trigger] key_bytes::<&[u8]>(k) == k@;
+pub open spec fn oview(v: Option<UserValue>) -> Option<Seq<u8>> { match v { Some(x) => Some(x@), None => None } }
+pub open spec fn olen(v: Option<Seq<u8>>) -> Option<u32> { match v { Some(x) => Some(x.len() as u32), None => None } }
 impl AnyTreeR {
     #[verifier::external_body]
     pub fn get<K: AsRef<[u8]>>(&self, key: K, seqno: u64, Tracked(w): Tracked<&mut RWorld>) -> (r: Result<Option<UserValue>, lsm_tree::Error>)
-        ensures point_read(*old(w), *final(w), self.id@, seqno) { unimplemented!() }
+        ensures point_read(*old(w), *final(w), self.id@, seqno), r matches Ok(v) ==> oview(v) == snap_get(self.id@, key_bytes(key), seqno) { unimplemented!() }
     #[verifier::external_body]
     pub fn contains_key<K: AsRef<[u8]>>(&self, key: K, seqno: u64, Tracked(w): Tracked<&mut RWorld>) -> (r: Result<bool, lsm_tree::Error>)
-        ensures point_read(*old(w), *final(w), self.id@, seqno) { unimplemented!() }
+        ensures point_read(*old(w), *final(w), self.id@, seqno), r matches Ok(b) ==> b == (snap_get(self.id@, key_bytes(key), seqno) is Some) { unimplemented!() }
     #[verifier::external_body]
     pub fn size_of<K: AsRef<[u8]>>(&self, key: K, seqno: u64, Tracked(w): Tracked<&mut RWorld>) -> (r: Result<Option<u32>, lsm_tree::Error>)
-        ensures point_read(*old(w), *final(w), self.id@, seqno) { unimplemented!() }
+        ensures point_read(*old(w), *final(w), self.id@, seqno), r matches Ok(s) ==> s == olen(snap_get(self.id@, key_bytes(key), seqno)) { unimplemented!() }
     #[verifier::external_body]
     pub fn is_empty(&self, seqno: u64, index: Option<(MemtableArc, u64)>, Tracked(w): Tracked<&mut RWorld>) -> (r: Result<bool, lsm_tree::Error>)
         ensures final(w).reads == old(w).reads.push(ReadEv { ks: self.id@, instant: seqno, scan: true, local: index is Some }) { unimplemented!() }
